@@ -59,14 +59,14 @@ PROPS = {
     ),
     'C07': dict(
         title='Range, symmetry, identity', level='other',
-        groups=both(['lemmas.range', 'lemmas.symmetry', 'rel_isi.B', 'rel_spike.B', 'rel_sync.B', 'rel_order.B', 'rel_dir.B', 'plumb.degenerate']),
+        groups=both(['lemmas.range', 'lemmas.symmetry', 'isi_py.P', 'isi_pyx.P', 'spike_py.B', 'spike_pyx.B', 'sync_py.B', 'sync_pyx.B', 'rel_isi.B', 'rel_spike.B', 'rel_sync.B', 'rel_order.B', 'rel_dir.B', 'plumb.degenerate']),
         technique='lemmas over the spec functions of the kernel contracts + bounded relational (two-run) symbolic execution of the real kernels',
         explanation='ratio in [0,1], window lemmas (L); swap symmetry and identity of the kernels by two-run symbolic execution (bounded); '
                     'SPIKE range [0,1] searched in the same bound (undecided nonlinear queries are reported, not counted)',
     ),
     'C08': dict(
         title='Shift / scale invariance, time-reversal mirror', level='other',
-        groups=both(['mirror_isi.B', 'mirror_spike.B', 'mirror_sync.B', 'mirror_order.B', 'affine_isi.B', 'affine_spike.B', 'affine_sync.B', 'affine_order.B']),
+        groups=both(['mirror_isi.B', 'mirror_spike.B', 'mirror_sync.B', 'mirror_order.B', 'affine_isi.B', 'affine_spike.B', 'affine_sync.B', 'affine_order.B', 'mirror_isilen.B']),
         technique='bounded relational (two-run) symbolic execution of the real kernels on transformed inputs',
         explanation='each kernel is executed symbolically on (s1,s2) and on the transformed trains; outputs are related as the statement says',
     ),
@@ -86,10 +86,10 @@ PROPS = {
     ),
     'C11': dict(
         title='Discrete profiles add by event and integrate over open intervals', level='other',
-        groups=both(['adddisc_py.B', 'adddisc_pyx.B', 'disc_integral.B', 'disc_avrg.B', 'disc_plot.B']),
+        groups=both(['adddisc_py.B', 'adddisc_pyx.B', 'disc_integral.B', 'disc_avrg.B', 'disc_plot.B', 'disc_smooth.B']),
         technique='bounded symbolic execution of the real kernel / methods against the event-wise definition',
         explanation='merge of events with summed values / multiplicities, open-interval selection, ratio with empty convention, k=0 plottable '
-                    'data; smoothing window k>0 not covered',
+                    'data; smoothing window k>0 with concrete integer multiplicities',
     ),
     'C12': dict(
         title='Compiled and fallback backends agree', level='other',
@@ -141,7 +141,7 @@ PROPS = {
     'C18': dict(
         title='Every valid input yields a finite, well-formed result without error', level='other',
         groups=both(['plumb.degenerate', 'isi_py.P', 'isi_pyx.P', 'spike_py.B', 'spike_pyx.B', 'sync_py.B', 'order_py.B', 'dir_py.B',
-                     'isidist_pyx.B', 'spikedist_pyx.B']),
+                     'isidist_pyx.B', 'spikedist_pyx.B', 'isilen.B', 'thresh.B', 'nonempty.P']),
         technique='safety obligations (index bounds, asserts, finiteness flags, no exception) of all kernels + wrappers on formal terms over all emptiness patterns',
         explanation='kernel safety and well-formedness clauses incl. one-spike, edge and identical trains; public functions on every pattern of '
                     'empty trains: no exception, no zero-denominator ratio',
